@@ -11,4 +11,4 @@ sed -i "$expr" "$d/$file"
 if diff -q /repo/$file "$d/$file" >/dev/null; then echo "MUTATION DID NOT APPLY"; exit 3; fi
 export GOFLAGS=-mod=mod GOPROXY=off GOSUMDB=off GOTOOLCHAIN=local
 (cd "$d" && go build ./... ) || { echo "MUTANT DOES NOT BUILD"; exit 3; }
-/verif/bin/sigverif -repo "$d" "$@"
+${SIGVERIF:-/verif/bin/sigverif} -repo "$d" "$@"
